@@ -214,7 +214,7 @@ def main(ctx):
         "int versus numerically equal float may or may not be reported (numeric width is read either way)",
         "an ignore path ignores the location it names (nil = any single segment) and everything below; a returned path it covers is a deviation; completeness is waived only for a container-kind/presence difference of which the ignore path names an existing descendant",
         "Match: a null fingerprint member matches an absent target member (documented obligation); longer target array, null fingerprint elements beyond the target array's end, int-vs-equal-float are open",
-        "values: every Go integer kind at its boundaries incl. uint/uint64 above MaxInt64, near neighbours beyond 2^53, compared exactly as decimal digit records; only an unsigned value above MaxInt64 against the int64 with the same bit pattern is open; float specials incl. +-Inf; no NaN/-0; times differ by whole seconds (TimeTolerance not modelled)",
+        "values: every Go integer kind at its boundaries incl. uint/uint64 above MaxInt64, near neighbours beyond 2^53, compared exactly as decimal digit records; an unsigned value above MaxInt64 is compared by value with floats (equal when float64(u) is exactly u, open when it is only the rounding) and exactly with integers; float specials incl. +-Inf; no NaN/-0; times differ by whole seconds (TimeTolerance not modelled)",
     ]
 
     def confirm(rec):
